@@ -80,6 +80,7 @@ def run(ctx, run):
     run.floor("Hamming decode call sites in the IDL/PFC feed paths", n_src, 10)
     _channel_filter(ctx, run, P.need("vbi_idl_demux_feed", IDL))
     _ci_range(ctx, run)
+    _page_complete_at_header(ctx, run, P.need("vbi_pfc_demux_feed", PFC))
     neg.helper_contract(ctx, run)
 
     # ---- RF-IVL --------------------------------------------------------------------------
@@ -520,3 +521,35 @@ def _ci_range(ctx, run):
     inv.install()
     n = inv.verify(run)
     run.floor("writers of vbi_pfc_demux.ci", sum(n.values()), 2)
+
+
+def _page_complete_at_header(ctx, run, f):
+    """When a new page header is accepted, the block in progress survives only if the previous page
+    was received to its end: the branch that decides about the reset must look at the expected
+    packet number against n_packets, not at the continuity index alone."""
+    run.touch(f)
+    n = 0
+    for bid, i in flow.all_events(f):
+        e = f.exprs[i]
+        if not (e["k"] == "call" and e.get("callee") == "vbi_pfc_demux_reset"):
+            continue
+        # the (possibly short-circuit) condition that leads into the block with the reset: the
+        # terminators of its predecessor blocks
+        flds = set()
+        for pb in f.blocks[bid].preds:
+            t = f.blocks[pb].term
+            if t and "cond" in t:
+                flds |= {x.split(".")[-1] for x in atoms.Operand(f, t["cond"]).fields}
+                flds |= {x for x in atoms.Operand(f, t["cond"]).locals}
+        if "ci" not in flds:
+            continue            # the other resets (packet continuity, Hamming errors)
+        n += 1
+        key = "RF-DOM:vbi_pfc_demux_feed:header-checks-page-complete"
+        if {"packet", "n_packets"} <= flds:
+            run.holds("RF-DOM", key, "a page header resets the block in progress when the continuity index is wrong or the previous "
+                      "page stopped short of n_packets", ex.loc(f, i))
+        else:
+            run.violation("RF-DOM", key, "a page header resets the block in progress only on a wrong continuity index (condition reads %s): "
+                          "when the last packets of the previous page are lost the unfinished block is completed with bytes of the "
+                          "next page and delivered" % sorted(flds), ex.loc(f, i))
+    run.floor("reset on page header in vbi_pfc_demux_feed", n, 1)
